@@ -1,4 +1,4 @@
-import D2P.Model.Walk
+import D2P.Proofs.Flush
 import D2P.Check.C01
 /-!
 # The collector's tree always has the four-level shape (lemmas for C01)
